@@ -191,7 +191,8 @@ impl Compiler {
       Err(Error::AmbiguousModuleFile {
         found: found
           .into_iter()
-          .map(|found| found.strip_prefix(parent).unwrap().into())
+          // a module path may lead out of the parent directory (`mod foo '../x'`)
+          .map(|found| found.strip_prefix(parent).unwrap_or(&found).into())
           .collect(),
         module,
       })
